@@ -1775,6 +1775,10 @@ class Engine:
             if is_for:
                 self.feasible()
                 self.assign(node.target, itv.get(k), env)
+                if spec.decreases and live is not None:
+                    # a `for` over a list that the body changes ends only if the list does not outgrow the index: a measure
+                    # over _i (the index) and the list, as for `while`
+                    dec0 = self.num(self.eval_spec(spec.decreases, env))
             else:
                 t = self.truth(self.eval(node.test, env))
                 if isinstance(t, bool):
